@@ -15,7 +15,7 @@ open Lumina.Proofs.Session (Inv Full AdmissibleEv inv_step task_in_range)
 abbrev ht : Hdr → Nat := (·.height)
 
 /-- the header-ex client's answer to a height request is a prefix of the request -/
-theorem clientAnswer_ok (fc : Bool) (net : Net) (b : Beh) (h a : Nat) (hs : List Hdr) (hh : 1 ≤ h)
+theorem clientAnswer_ok (net : Net) (b : Beh) (h a : Nat) (hs : List Hdr) (hh : 1 ≤ h)
     (hok : clientAnswer 32 true net b h a = .ok hs) :
     hs.length ≤ a ∧ hs.map ht = List.range' h hs.length := by
   simp only [clientAnswer] at hok
@@ -142,7 +142,7 @@ theorem drive_inv (net : Net) (r : Range) (hr : 1 ≤ r.1 ∧ r.1 ≤ r.2 ∧ r.
       | panic => exact absurd hans (clientAnswer_no_panic _ _ _ _)
       | ok hs =>
         simp only
-        obtain ⟨hl, hp⟩ := clientAnswer_ok true net _ t.1 t.2 hs ht1 hans
+        obtain ⟨hl, hp⟩ := clientAnswer_ok net _ t.1 t.2 hs ht1 hans
         have hadm : AdmissibleEv ht s (.ok t.1 t.2 hs) := ⟨hmem, hl, hp⟩
         obtain ⟨i1, i2⟩ := inv_step ht 64 8 r ⟨hr.2.1, hr.2.2⟩ s _ hinv hfull hadm
         exact ih (j + 1) _ i1 i2
